@@ -79,12 +79,13 @@ def _strategy(rng, est):
     k = _weighted(rng, [('bernoulli', 4), ('pct', 3), ('rr', 2), ('focus', 3)])
     if k == 'focus':
         return {'kind': k, 'p': rng.choice([0.3, 0.5, 1.0]), 'pick': rng.randrange(1 << 20), 'instr': rng.random() < 0.4}
+    # (dense strategies are thinned out for long runs: about 25 000 hand-overs per run at most, going by the static hints)
     if k == 'bernoulli':
-        return {'kind': k, 'p': rng.choice([0.001, 0.003, 0.01, 0.02, 0.05])}
+        return {'kind': k, 'p': min(rng.choice([0.001, 0.003, 0.01, 0.02, 0.05]), max(0.0005, 25000.0 / max(est, 1)))}
     if k == 'pct':
         return {'kind': k, 'd': rng.choice([1, 2, 3, 5]), 'est': est}
     # (a quantum of 1 event = one thread hand-over per line costs ~80 us each: 20 s for a 250 k-event run; 3 is the floor)
-    return {'kind': k, 'q': rng.choice([3, 7, 50, 400, 2000])}
+    return {'kind': k, 'q': max(rng.choice([3, 7, 50, 400, 2000]), est // 25000)}
 
 
 _HINTS = {}
@@ -118,8 +119,10 @@ def gen_s1(seed, corpus, ref, instr_frac=0.1, sa_frac=0.0):
     seen_heavy = False          # one heavy op per run
     for cl in clients:
         for j, op in enumerate(cl):
-            if (_HINTS.get(O.op_key(op)) or ['ok', 0])[1] > HEAVY_EV:
-                if seen_heavy or gran == 'instr' or QUICK[0]:
+            hev = (_HINTS.get(O.op_key(op)) or ['ok', 0])[1]
+            if hev > HEAVY_EV:
+                # (the quick tier admits one moderately heavy op per run: the caller-built condition chains)
+                if seen_heavy or gran == 'instr' or (QUICK[0] and hev > QUICK_HEAVY_EV):
                     cl[j] = light[rng.randrange(len(light))]
                 else:
                     seen_heavy = True
@@ -227,19 +230,27 @@ def gen_sweep_base(seed, corpus, ref, fam, fam2=None):
     rng = random.Random('C20/SWEEP/%d/%s/%s' % (seed, fam, fam2))
     pools = []
     for f in ([fam] if fam2 is None else [fam, fam2]):
-        lst = _light_ops(corpus['families'][f]) if QUICK[0] else corpus['families'][f]
+        # (quick tier: the family without its really heavy members; the moderately heavy ones stay, a sweep scenario is a handful of ops)
+        lst = _light_ops(corpus['families'][f], QUICK_HEAVY_EV) if QUICK[0] else corpus['families'][f]
         pools.append(rng.sample(lst, min(len(lst), 8)))
     ncl = _weighted(rng, [(2, 8), (3, 2)])
     clients = []
+    # 'twin' scenarios: every client has the SAME few ops (in its own order) and the run shares parsed trees, i.e. several
+    # threads work on one statement object at the same time; always so for the family of ops that edit the tree they are given
+    twin = fam2 is None and (fam.startswith('render_edits_tree') or rng.random() < 0.2)
+    if twin:
+        same = list(pools[0])
+        rng.shuffle(same)
+        same = same[:rng.randint(1, 3)]
     for i in range(ncl):
-        perm = list(pools[i % len(pools)])
+        perm = list(pools[i % len(pools)]) if not twin else list(same)
         rng.shuffle(perm)
         clients.append(perm[:rng.randint(2, 4)])
     return {
         'cmd': 'sim', 'property': 'C20', 'sub': 'S1', 'seed': seed, 'hashseed': hashseed_for(seed),
         'families': [fam] if fam2 is None else [fam, fam2],
         'clients': clients, 'gran': 'line', 'scope': ['repo'], 'cat_mode': 'shared', 'rnd_mode': 'shared', 'meta_share': True,
-        'tree_share': rng.random() < 0.3,
+        'tree_share': twin or rng.random() < 0.3,
         'strategy': {'kind': 'focus'}, 'sched_seed': rng.randrange(1 << 30), 'faults': [], 'gcs_at': [],
     }
 
@@ -299,12 +310,13 @@ def gen_s2_long(seed, corpus, ref=None):
 
 
 HEAVY_EV = 40000
+QUICK_HEAVY_EV = 120000
 
 
-def _light_ops(ops):
+def _light_ops(ops, limit=None):
     """Ops whose static hint says they take more than HEAVY_EV line events (the deep inputs) stay out of the long,
     un-instrumented histories: there they would only cost seconds each; they are exercised by S1 runs and S3."""
-    out = [op for op in ops if (_HINTS.get(O.op_key(op)) or ['ok', 0])[1] <= HEAVY_EV]
+    out = [op for op in ops if (_HINTS.get(O.op_key(op)) or ['ok', 0])[1] <= (limit or HEAVY_EV)]
     return out or list(ops)
 
 
